@@ -1319,28 +1319,58 @@ def rule_problem_build_table(F, ev, R, config, rule="R-PROBLEM-BUILD-TABLE"):
         pairs = inlined_envs(ev, env)
         found = {}
         err_results = {}
+        per_body = {}
+
+        def implies_defect(term, truth, names):
+            """`term == truth` implies one of the defects `names`"""
+            if term[0] == "un" and term[1] == "Not":
+                return implies_defect(term[2], not truth, names)
+            if term[0] == "bin" and term[1] in ("LAnd", "LOr"):
+                conj = (term[1] == "LAnd") == truth      # a conjunction of the (possibly negated) members holds
+                a, b_ = implies_defect(term[2], truth, names), implies_defect(term[3], truth, names)
+                return (a or b_) if conj else (a and b_)
+            c = classify(term)
+            return bool(c) and c[0] in names and c[1] == truth
+
+        def guards_of(body, e2):
+            if id(e2) not in per_body:
+                g = Guards(ev, body, e2)
+                atoms = {}
+                for sw in g.switches:
+                    c = classify(sw["term"])
+                    if c:
+                        atoms.setdefault(c[0], []).append((sw, c[1]))
+                        found[c[0]] = sw
+                per_body[id(e2)] = (g, atoms)
+            return per_body[id(e2)]
+
+        def site_ok(body, e2, bi, names, local=None, depth=0):
+            """the error built in block `bi` can be returned only when one of the defects `names` is present"""
+            g, atoms = guards_of(body, e2)
+            es = [g.bool_edges(sw, defect_truth) for a in names for sw, defect_truth in atoms.get(a, [])]
+            if es and g.holds_on_all_paths_to(bi, es):
+                return True
+            # the conditions that hold at the site (also: presence conditions of `?` on `cond.then_some(..).ok_or(..)`)
+            if any(isinstance(tr, bool) and implies_defect(t_, tr, names) for t_, tr, sw_ in g.relations_at(bi)[1]):
+                return True
+            # built eagerly as the argument of `recv.ok_or(E)`: returned only when recv is absent
+            if local is not None:
+                only_if = returned_only_if(ev, body, e2, local)
+                if only_if and any(implies_defect(t_, tr, names) for t_, tr in only_if):
+                    return True
+            # a private constructor helper of the error value: the site is its call
+            if depth < 3 and e2.parent is not None and e2.path and unconditional_constructor(body, bi):
+                pb, pblk = e2.parent.body, e2.path[-1][1]
+                return site_ok(pb, e2.parent, pblk, names, pb.blocks[pblk]["term"]["dest"]["l"], depth + 1)
+            return False
         for body, e2 in pairs:
-            g = Guards(ev, body, e2)
-            atoms = {}
-            for sw in g.switches:
-                c = classify(sw["term"])
-                if c:
-                    atoms.setdefault(c[0], []).append((sw, c[1]))
-                    found[c[0]] = sw
-            def defect_edges(name):
-                es = []
-                for sw, defect_truth in atoms.get(name, []):
-                    es.append(g.bool_edges(sw, defect_truth))
-                return es
+            g, atoms = guards_of(body, e2)
             spec = {"ZeroLengthVector": ["zero", "empty"], "InvalidLengthOfData": ["rows"], "InvalidLengthOfWeights": ["weights_fit"]}
             for bi, si, s in body.stmts():
                 if s["k"] == "assign" and s["rv"]["k"] == "agg" and s["rv"].get("adt", "").endswith("LevMarBuilderError"):
                     v = s["rv"]["variant"]
                     if v in spec:
-                        es = []
-                        for a in spec[v]:
-                            es.extend(defect_edges(a))
-                        ok = bool(es) and g.holds_on_all_paths_to(bi, es)
+                        ok = site_ok(body, e2, bi, spec[v], s["place"]["l"] if not s["place"]["proj"] else None)
                         err_results.setdefault(v, []).append((ok, body, s))
                     elif v == "YDataMissing":
                         cons = consumers(body, s["place"]["l"])
